@@ -5,19 +5,22 @@
     decidable total order ([sp_laws]), hence for the instance [spq_ops] on Qc that is extracted and
     run ([c07_qc_laws]).
 
-    NOT proved here (exercised by the exact differential of harness/props/c07.py only):
-    - that the derivative formula of [c07_ders_formula] is d/dx of the basis (classical identity);
-    - equality of the two PATHS as functions of x is proved in the form "both return the B-spline
-      series of the closed domain on the uniform extension knots" for values in 1-D
-      (c07_eval_1d_closed, c07_cu_eval_1d_closed, under the floor law [sp_trunc_ok] of int(), which is
-      not proved for the Qc instance); for derivatives and in 2-D only the closed forms are proved
-      equal (c07_cu_basis_eq_general, c07_cu_ders_eq_general) and the span/offset relation
-      (c07_cu_find_span_spec);
-    - periodic splines: equal values and slopes at both ends of the period;
-    - the dispatch of Spline1D / Spline2D / BSplines (numpy level) and floating-point rounding. *)
+    Second part (SplinePaths.v, SplineDeriv.v, SplinePeriodic.v, SplineQcTheory.v on CoxDeBoorDeriv.v,
+    CoxDeBoorPeriodic.v): the uniform-cubic path equals the general path as equations between the
+    executable entry points (1-D/2-D, values and slopes; at Qc without any hypothesis on int()); the
+    derivative routines return the formal derivative of the basis (de Boor identity; algebraic Taylor
+    characterisation, no real analysis); periodic splines have equal values (degree >= 1) and slopes
+    (degree >= 2) at both ends of the period.
+
+    NOT proved here (exercised by harness/props/c07.py only):
+    - the formal derivative is not connected to a derivative over the reals (no analysis);
+    - the numpy-level dispatch of Spline1D / Spline2D / BSplines, make_knots (its output is
+      characterised by hypotheses: sorted / strictly increasing / periodic knots), and
+      floating-point rounding. *)
 From Coq Require Import List Arith Lia ZArith Bool QArith Qcanon.
 Import ListNotations.
-From PGV Require Import BasisCoxDeBoor CoxDeBoorGen FindSpan CubicUniform Sums SplineModel SplineTheory SplineQc.
+From PGV Require Import BasisCoxDeBoor CoxDeBoorGen CoxDeBoorDeriv FindSpan CubicUniform Sums SplineModel SplineTheory SplineQc
+  SplinePaths SplineDeriv SplinePeriodic SplineQcTheory.
 
 (** nu_find_span: for every degree and every knot list with 2p+1 < len and t[p] < t[len-1-p] (no other
     assumption: the search invariant does not need sortedness) the search terminates within its fuel,
@@ -563,6 +566,405 @@ Theorem c07_cu_eval_1d_closed :
 Proof. exact sp_cu_eval_1d_closed. Qed.
 Print Assumptions c07_cu_eval_1d_closed.
 
+(** the executed int() (truncation of num/den towards zero) satisfies the floor law on non-negative rationals *)
+Theorem c07_qc_trunc_ok :
+  sp_trunc_ok Qc spq_ops.
+Proof. exact spq_trunc_ok. Qed.
+Print Assumptions c07_qc_trunc_ok.
+
+(** cu_find_span at the executed instance, no hypothesis on int() left *)
+Theorem c07_qc_cu_find_span_spec :
+  forall (xmin xmax dx x : Qc) (n : nat),
+  (1 <= n)%nat ->
+  sp_lt spq_ops (sp0 spq_ops) dx ->
+  xmax = (xmin + spq_ofnat n * dx)%Qc ->
+  sp_le spq_ops xmin x ->
+  sp_le spq_ops x xmax ->
+  exists (s : nat) (o : Qc),
+    spq_cu_find_span xmin xmax dx x (Z.of_nat n) = SpOk (Z.of_nat s, o) /\
+    (3 <= s <= n + 2)%nat /\
+    x = (spq_tU xmin dx s + o * dx)%Qc /\
+    sp_le spq_ops (sp0 spq_ops) o /\
+    sp_le spq_ops o (sp1 spq_ops) /\ (o = sp1 spq_ops -> s = (n + 2)%nat).
+Proof. exact spq_cu_find_span_spec. Qed.
+Print Assumptions c07_qc_cu_find_span_spec.
+
+(** cu_eval_spline_1d_scalar at the executed instance: the B-spline series on the uniform extension knots *)
+Theorem c07_qc_cu_eval_1d_closed :
+  forall (xmin xmax dx fn : Qc) (rest : list Qc) (n : nat) (coeffs : list Qc) (x : Qc),
+  (1 <= n)%nat ->
+  sp_lt spq_ops (sp0 spq_ops) dx ->
+  xmax = (xmin + spq_ofnat n * dx)%Qc ->
+  spq_trunc fn = Z.of_nat n ->
+  sp_le spq_ops xmin x ->
+  sp_le spq_ops x xmax ->
+  length coeffs = (n + 3)%nat ->
+  exists s : nat,
+    (3 <= s <= n + 2)%nat /\
+    spq_cu_eval_1d_scalar x (xmin :: xmax :: dx :: fn :: rest) 3 coeffs 0 =
+    SpOk
+      (sumr Qc (sp0 spq_ops) Qcplus 0 4
+         (fun j : nat =>
+          (nth (s - 3 + j) coeffs (sp0 spq_ops) *
+           sp_Nc Qc spq_ops (spq_uniform_knots xmin dx n) (n + 3) x 3 (s - 3 + j))%Qc)).
+Proof. exact spq_cu_eval_1d_closed. Qed.
+Print Assumptions c07_qc_cu_eval_1d_closed.
+
+(** uniform-cubic path = general path, step 1: on [xmin, xmax] nu_find_span on the uniform extension knot vector
+    returns the span of cu_find_span (uniqueness of the closed span that contains x) *)
+Theorem c07_cu_span_eq_nu_span :
+  forall (F : Type) (K : sp_ops F),
+  sp_laws K ->
+  forall (xmin xmax dx x : F) (n : nat),
+  sp_trunc_ok F K ->
+  (1 <= n)%nat ->
+  sp_lt K (sp0 K) dx ->
+  xmax = spadd K xmin (spmul K (sp_ofnat F K n) dx) ->
+  sp_le K xmin x ->
+  sp_le K x xmax ->
+  exists (s : nat) (o : F),
+    sp_cu_find_span F K xmin xmax dx x (Z.of_nat n) = SpOk (Z.of_nat s, o) /\
+    sp_nu_find_span F K (sp_uniform_knots F K xmin dx n) 3 x = SpOk s /\
+    (3 <= s <= n + 2)%nat /\
+    x = spadd K (tU F (sp0 K) (sp1 K) (spadd K) (spmul K) (spsub K) xmin dx s) (spmul K o dx) /\
+    sp_span_ok F K (sp_uniform_knots F K xmin dx n) s.
+Proof. exact sp_cu_span_eq_nu_span. Qed.
+Print Assumptions c07_cu_span_eq_nu_span.
+
+(** uniform-cubic path = general path as an EQUATION between the two executable entry points, everywhere on the
+    closed domain [xmin, xmax] (x = xmax: the span == ncells branch), values (der = 0) and slopes (der = 1) *)
+Theorem c07_cu_path_eq_nu_path_1d :
+  forall (F : Type) (K : sp_ops F),
+  sp_laws K ->
+  forall (xmin xmax dx fn : F) (rest : list F) (n : nat) (coeffs : list F) (x : F) (der : nat),
+  sp_trunc_ok F K ->
+  (1 <= n)%nat ->
+  sp_lt K (sp0 K) dx ->
+  xmax = spadd K xmin (spmul K (sp_ofnat F K n) dx) ->
+  sptrunc K fn = Z.of_nat n ->
+  sp_le K xmin x ->
+  sp_le K x xmax ->
+  length coeffs = (n + 3)%nat ->
+  (der <= 1)%nat ->
+  sp_cu_eval_1d_scalar F K x (xmin :: xmax :: dx :: fn :: rest) 3 coeffs der =
+  sp_nu_eval_1d_scalar F K x (sp_uniform_knots F K xmin dx n) 3 coeffs der.
+Proof. exact sp_cu_path_eq_nu_path_1d. Qed.
+Print Assumptions c07_cu_path_eq_nu_path_1d.
+
+(** the same for the vector entry points *)
+Theorem c07_cu_path_eq_nu_path_1d_vector :
+  forall (F : Type) (K : sp_ops F),
+  sp_laws K ->
+  forall (xmin xmax dx fn : F) (rest : list F) (n : nat) (coeffs xs : list F) (der : nat),
+  sp_trunc_ok F K ->
+  (1 <= n)%nat ->
+  sp_lt K (sp0 K) dx ->
+  xmax = spadd K xmin (spmul K (sp_ofnat F K n) dx) ->
+  sptrunc K fn = Z.of_nat n ->
+  (forall x : F, In x xs -> sp_le K xmin x /\ sp_le K x xmax) ->
+  length coeffs = (n + 3)%nat ->
+  (der <= 1)%nat ->
+  sp_cu_eval_1d_vector F K xs (xmin :: xmax :: dx :: fn :: rest) 3 coeffs der =
+  sp_nu_eval_1d_vector F K xs (sp_uniform_knots F K xmin dx n) 3 coeffs der.
+Proof. exact sp_cu_path_eq_nu_path_1d_vector. Qed.
+Print Assumptions c07_cu_path_eq_nu_path_1d_vector.
+
+(** the same for the 2-D scalar entry points, (der1, der2) in {0,1}^2 *)
+Theorem c07_cu_path_eq_nu_path_2d :
+  forall (F : Type) (K : sp_ops F),
+  sp_laws K ->
+  forall (xmin xmax dx fnx : F) (restx : list F) (nx : nat) (ymin ymax dy fny : F) 
+    (resty : list F) (ny : nat) (coeffs : list (list F)) (x y : F) (e1 e2 : nat),
+  sp_trunc_ok F K ->
+  (1 <= nx)%nat ->
+  (1 <= ny)%nat ->
+  sp_lt K (sp0 K) dx ->
+  sp_lt K (sp0 K) dy ->
+  xmax = spadd K xmin (spmul K (sp_ofnat F K nx) dx) ->
+  ymax = spadd K ymin (spmul K (sp_ofnat F K ny) dy) ->
+  sptrunc K fnx = Z.of_nat nx ->
+  sptrunc K fny = Z.of_nat ny ->
+  sp_le K xmin x ->
+  sp_le K x xmax ->
+  sp_le K ymin y ->
+  sp_le K y ymax ->
+  length coeffs = (nx + 3)%nat ->
+  (forall row : list F, In row coeffs -> length row = (ny + 3)%nat) ->
+  (e1 <= 1)%nat ->
+  (e2 <= 1)%nat ->
+  sp_cu_eval_2d_scalar F K x y (xmin :: xmax :: dx :: fnx :: restx) 3
+    (ymin :: ymax :: dy :: fny :: resty) 3 coeffs e1 e2 =
+  sp_nu_eval_2d_scalar F K x y (sp_uniform_knots F K xmin dx nx) 3 (sp_uniform_knots F K ymin dy ny) 3
+    coeffs e1 e2.
+Proof. exact sp_cu_path_eq_nu_path_2d. Qed.
+Print Assumptions c07_cu_path_eq_nu_path_2d.
+
+(** the same for the 2-D tensor-grid entry points *)
+Theorem c07_cu_path_eq_nu_path_2d_cross :
+  forall (F : Type) (K : sp_ops F),
+  sp_laws K ->
+  forall (xmin xmax dx fnx : F) (restx : list F) (nx : nat) (ymin ymax dy fny : F) 
+    (resty : list F) (ny : nat) (coeffs : list (list F)) (X Y : list F) (e1 e2 : nat),
+  sp_trunc_ok F K ->
+  (1 <= nx)%nat ->
+  (1 <= ny)%nat ->
+  sp_lt K (sp0 K) dx ->
+  sp_lt K (sp0 K) dy ->
+  xmax = spadd K xmin (spmul K (sp_ofnat F K nx) dx) ->
+  ymax = spadd K ymin (spmul K (sp_ofnat F K ny) dy) ->
+  sptrunc K fnx = Z.of_nat nx ->
+  sptrunc K fny = Z.of_nat ny ->
+  (forall x : F, In x X -> sp_le K xmin x /\ sp_le K x xmax) ->
+  (forall y : F, In y Y -> sp_le K ymin y /\ sp_le K y ymax) ->
+  Y <> [] ->
+  length coeffs = (nx + 3)%nat ->
+  (forall row : list F, In row coeffs -> length row = (ny + 3)%nat) ->
+  (e1 <= 1)%nat ->
+  (e2 <= 1)%nat ->
+  sp_cu_eval_2d_cross F K X Y (xmin :: xmax :: dx :: fnx :: restx) 3
+    (ymin :: ymax :: dy :: fny :: resty) 3 coeffs e1 e2 =
+  sp_nu_eval_2d_cross F K X Y (sp_uniform_knots F K xmin dx nx) 3 (sp_uniform_knots F K ymin dy ny) 3
+    coeffs e1 e2.
+Proof. exact sp_cu_path_eq_nu_path_2d_cross. Qed.
+Print Assumptions c07_cu_path_eq_nu_path_2d_cross.
+
+(** the same for the 2-D pairwise entry points *)
+Theorem c07_cu_path_eq_nu_path_2d_vector :
+  forall (F : Type) (K : sp_ops F),
+  sp_laws K ->
+  forall (xmin xmax dx fnx : F) (restx : list F) (nx : nat) (ymin ymax dy fny : F) 
+    (resty : list F) (ny : nat) (coeffs : list (list F)) (xs ys : list F) (e1 e2 : nat),
+  sp_trunc_ok F K ->
+  (1 <= nx)%nat ->
+  (1 <= ny)%nat ->
+  sp_lt K (sp0 K) dx ->
+  sp_lt K (sp0 K) dy ->
+  xmax = spadd K xmin (spmul K (sp_ofnat F K nx) dx) ->
+  ymax = spadd K ymin (spmul K (sp_ofnat F K ny) dy) ->
+  sptrunc K fnx = Z.of_nat nx ->
+  sptrunc K fny = Z.of_nat ny ->
+  (forall x : F, In x xs -> sp_le K xmin x /\ sp_le K x xmax) ->
+  (forall y : F, In y ys -> sp_le K ymin y /\ sp_le K y ymax) ->
+  length xs = length ys ->
+  length coeffs = (nx + 3)%nat ->
+  (forall row : list F, In row coeffs -> length row = (ny + 3)%nat) ->
+  (e1 <= 1)%nat ->
+  (e2 <= 1)%nat ->
+  sp_cu_eval_2d_vector F K xs ys (xmin :: xmax :: dx :: fnx :: restx) 3
+    (ymin :: ymax :: dy :: fny :: resty) 3 coeffs e1 e2 =
+  sp_nu_eval_2d_vector F K xs ys (sp_uniform_knots F K xmin dx nx) 3 (sp_uniform_knots F K ymin dy ny) 3
+    coeffs e1 e2.
+Proof. exact sp_cu_path_eq_nu_path_2d_vector. Qed.
+Print Assumptions c07_cu_path_eq_nu_path_2d_vector.
+
+(** path equality at the executed instance (no hypothesis on int()), 1-D *)
+Theorem c07_qc_cu_path_eq_nu_path_1d :
+  forall (xmin xmax dx fn : Qc) (rest : list Qc) (n : nat) (coeffs : list Qc) (x : Qc) (der : nat),
+  (1 <= n)%nat ->
+  sp_lt spq_ops (sp0 spq_ops) dx ->
+  xmax = (xmin + spq_ofnat n * dx)%Qc ->
+  spq_trunc fn = Z.of_nat n ->
+  sp_le spq_ops xmin x ->
+  sp_le spq_ops x xmax ->
+  length coeffs = (n + 3)%nat ->
+  (der <= 1)%nat ->
+  spq_cu_eval_1d_scalar x (xmin :: xmax :: dx :: fn :: rest) 3 coeffs der =
+  spq_nu_eval_1d_scalar x (spq_uniform_knots xmin dx n) 3 coeffs der.
+Proof. exact spq_cu_path_eq_nu_path_1d. Qed.
+Print Assumptions c07_qc_cu_path_eq_nu_path_1d.
+
+(** path equality at the executed instance, 2-D *)
+Theorem c07_qc_cu_path_eq_nu_path_2d :
+  forall (xmin xmax dx fnx : Qc) (restx : list Qc) (nx : nat) (ymin ymax dy fny : Qc)
+    (resty : list Qc) (ny : nat) (coeffs : list (list Qc)) (x y : Qc) (e1 e2 : nat),
+  (1 <= nx)%nat ->
+  (1 <= ny)%nat ->
+  sp_lt spq_ops (sp0 spq_ops) dx ->
+  sp_lt spq_ops (sp0 spq_ops) dy ->
+  xmax = (xmin + spq_ofnat nx * dx)%Qc ->
+  ymax = (ymin + spq_ofnat ny * dy)%Qc ->
+  spq_trunc fnx = Z.of_nat nx ->
+  spq_trunc fny = Z.of_nat ny ->
+  sp_le spq_ops xmin x ->
+  sp_le spq_ops x xmax ->
+  sp_le spq_ops ymin y ->
+  sp_le spq_ops y ymax ->
+  length coeffs = (nx + 3)%nat ->
+  (forall row : list Qc, In row coeffs -> length row = (ny + 3)%nat) ->
+  (e1 <= 1)%nat ->
+  (e2 <= 1)%nat ->
+  spq_cu_eval_2d_scalar x y (xmin :: xmax :: dx :: fnx :: restx) 3 (ymin :: ymax :: dy :: fny :: resty)
+    3 coeffs e1 e2 =
+  spq_nu_eval_2d_scalar x y (spq_uniform_knots xmin dx nx) 3 (spq_uniform_knots ymin dy ny) 3 coeffs e1
+    e2.
+Proof. exact spq_cu_path_eq_nu_path_2d. Qed.
+Print Assumptions c07_qc_cu_path_eq_nu_path_2d.
+
+(** on a span s, nu_basis_funs returns for EVERY x the polynomials x |-> sp_Nd knots s x p i (the Cox - de Boor
+    triangle above the indicator row of s, which does not depend on x): the polynomial pieces of the B-splines *)
+Theorem c07_basis_is_polynomial_piece :
+  forall (F : Type) (K : sp_ops F),
+  sp_laws K ->
+  forall (knots : list F) (degree : nat) (x : F) (s : nat),
+  sp_sorted F K knots ->
+  sp_span_ok F K knots s ->
+  (degree <= s)%nat ->
+  sp_A22 F K knots degree x s =
+  map (fun q : nat => sp_Nd F K knots s x degree (s - degree + q)) (seq 0 (S degree)).
+Proof. exact sp_A22_eq_Nd. Qed.
+Print Assumptions c07_basis_is_polynomial_piece.
+
+(** [sp_DNd] (product rule through the recursion) is the derivative of these polynomials: the second-order Taylor
+    remainder is h^2 times an expression built without dividing by h (purely algebraic characterisation) *)
+Theorem c07_piece_taylor :
+  forall (F : Type) (K : sp_ops F),
+  sp_laws K ->
+  forall (knots : list F) (s : nat) (x h : F) (k i : nat),
+  sp_Nd F K knots s (spadd K x h) k i =
+  spadd K (spadd K (sp_Nd F K knots s x k i) (spmul K h (sp_DNd F K knots s x k i)))
+    (spmul K (spmul K h h) (sp_RNd F K knots s x h k i)).
+Proof. exact sp_Nd_taylor. Qed.
+Print Assumptions c07_piece_taylor.
+
+(** nu_basis_funs_1st_der returns exactly these derivatives, for every degree >= 1, sorted knots, every x
+    (de Boor identity, CoxDeBoorDeriv.deboor_identity, by induction on the degree) *)
+Theorem c07_ders_eq_formal_derivative :
+  forall (F : Type) (K : sp_ops F),
+  sp_laws K ->
+  forall (knots : list F) (degree : nat) (x : F) (s j : nat),
+  sp_sorted F K knots ->
+  sp_span_ok F K knots s ->
+  (1 <= degree)%nat ->
+  (degree <= s)%nat ->
+  (j <= degree)%nat ->
+  nth j (sp_ders_raw F K knots degree x s) (sp0 K) = sp_DNd F K knots s x degree (s - degree + j).
+Proof. exact sp_ders_eq_formal_derivative. Qed.
+Print Assumptions c07_ders_eq_formal_derivative.
+
+(** stated between the two executable routines: on every span
+    nu_basis_funs(x+h)[j] = nu_basis_funs(x)[j] + h*nu_basis_funs_1st_der(x)[j] + h^2*R *)
+Theorem c07_basis_taylor :
+  forall (F : Type) (K : sp_ops F),
+  sp_laws K ->
+  forall (knots : list F) (degree : nat) (x h : F) (s j : nat),
+  sp_sorted F K knots ->
+  sp_span_ok F K knots s ->
+  (1 <= degree)%nat ->
+  (degree <= s)%nat ->
+  (j <= degree)%nat ->
+  nth j (sp_A22 F K knots degree (spadd K x h) s) (sp0 K) =
+  spadd K
+    (spadd K (nth j (sp_A22 F K knots degree x s) (sp0 K))
+       (spmul K h (nth j (sp_ders_raw F K knots degree x s) (sp0 K))))
+    (spmul K (spmul K h h) (sp_RNd F K knots s x h degree (s - degree + j))).
+Proof. exact sp_basis_taylor. Qed.
+Print Assumptions c07_basis_taylor.
+
+(** for the spline itself: while x and x+h stay in one span, the der = 1 entry point is the derivative of the der = 0
+    entry point (S(x+h) = S(x) + h*S'(x) + h^2*R, R built without dividing by h) *)
+Theorem c07_eval_taylor :
+  forall (F : Type) (K : sp_ops F),
+  sp_laws K ->
+  forall (knots : list F) (degree : nat) (coeffs : list F) (x h : F) (s : nat),
+  sp_sorted F K knots ->
+  sp_span_ok F K knots s ->
+  sp_nu_find_span F K knots degree x = SpOk s ->
+  sp_nu_find_span F K knots degree (spadd K x h) = SpOk s ->
+  (1 <= degree)%nat ->
+  (degree <= s)%nat ->
+  (s + degree < length knots)%nat ->
+  (s < length coeffs)%nat ->
+  exists v0 v1 d : F,
+    sp_nu_eval_1d_scalar F K x knots degree coeffs 0 = SpOk v0 /\
+    sp_nu_eval_1d_scalar F K (spadd K x h) knots degree coeffs 0 = SpOk v1 /\
+    sp_nu_eval_1d_scalar F K x knots degree coeffs 1 = SpOk d /\
+    v1 =
+    spadd K (spadd K v0 (spmul K h d))
+      (spmul K (spmul K h h)
+         (sumr F (sp0 K) (spadd K) 0 (S degree)
+            (fun j : nat =>
+             spmul K (nth (s - degree + j) coeffs (sp0 K))
+               (sp_RNd F K knots s x h degree (s - degree + j))))).
+Proof. exact sp_eval_taylor. Qed.
+Print Assumptions c07_eval_taylor.
+
+(** cu_basis_funs are the four cubic polynomials [sp_cu_polys] (coefficient lists) in the offset *)
+Theorem c07_cu_basis_poly :
+  forall (F : Type) (K : sp_ops F),
+  sp_laws K ->
+  forall o : F, sp_cu_basis_funs F K o = map (fun p : list F => sp_peval F K p o) (sp_cu_polys F K).
+Proof. exact sp_cu_basis_poly. Qed.
+Print Assumptions c07_cu_basis_poly.
+
+(** cu_basis_funs_1st_der = D(cu_basis_funs)/dx with D the formal derivative of coefficient lists *)
+Theorem c07_cu_ders_eq_D :
+  forall (F : Type) (K : sp_ops F),
+  sp_laws K ->
+  forall o dx : F,
+  dx <> sp0 K ->
+  sp_cu_basis_funs_1st_der F K o dx =
+  map (fun p : list F => spdiv K (sp_peval F K (sp_pD F K p) o) dx) (sp_cu_polys F K).
+Proof. exact sp_cu_ders_eq_D. Qed.
+Print Assumptions c07_cu_ders_eq_D.
+
+(** and D is the derivative of a coefficient-list polynomial (same Taylor characterisation) *)
+Theorem c07_poly_D_taylor :
+  forall (F : Type) (K : sp_ops F),
+  sp_laws K ->
+  forall (p : list F) (x h : F),
+  sp_peval F K p (spadd K x h) =
+  spadd K (spadd K (sp_peval F K p x) (spmul K h (sp_peval F K (sp_pD F K p) x)))
+    (spmul K (spmul K h h) (sp_pR F K p x h)).
+Proof. exact sp_peval_taylor. Qed.
+Print Assumptions c07_poly_D_taylor.
+
+(** cu_basis_funs is non-negative on 0 <= offset <= 1 *)
+Theorem c07_cu_basis_nonneg :
+  forall (F : Type) (K : sp_ops F),
+  sp_laws K ->
+  forall o : F, sp_le K (sp0 K) o -> sp_le K o (sp1 K) -> sp_all_nonneg F K (sp_cu_basis_funs F K o).
+Proof. exact sp_cu_basis_nonneg. Qed.
+Print Assumptions c07_cu_basis_nonneg.
+
+(** periodic splines (knot vector of make_knots(periodic=True): strictly increasing, knots[i+n] = knots[i] + period,
+    length n+2p+1; coefficients wrapped c[n+j] = c[j]): equal VALUES at both ends of the period, every degree >= 1 *)
+Theorem c07_periodic_values :
+  forall (F : Type) (K : sp_ops F),
+  sp_laws K ->
+  forall (knots : list F) (n p : nat) (P : F),
+  sp_strict F K knots ->
+  length knots = (n + 2 * p + 1)%nat ->
+  sp_periodic_knots F K knots n P ->
+  (1 <= p)%nat ->
+  (1 <= n)%nat ->
+  forall coeffs : list F,
+  length coeffs = (n + p)%nat ->
+  sp_wrapped F K coeffs n p ->
+  sp_nu_eval_1d_scalar F K (sp_kn F K knots p) knots p coeffs 0 =
+  sp_nu_eval_1d_scalar F K (sp_kn F K knots (n + p)) knots p coeffs 0.
+Proof. exact sp_periodic_values. Qed.
+Print Assumptions c07_periodic_values.
+
+(** and equal SLOPES for every degree >= 2 (for degree 1 the spline is only C0: the code returns the right slope at a
+    and the left slope at b, e.g. knots -11/15 -1/3 0 2/5 11/15, coefficients 2 -5/2 2: -27/2 vs 45/4) *)
+Theorem c07_periodic_slopes :
+  forall (F : Type) (K : sp_ops F),
+  sp_laws K ->
+  forall (knots : list F) (n p : nat) (P : F),
+  sp_strict F K knots ->
+  length knots = (n + 2 * p + 1)%nat ->
+  sp_periodic_knots F K knots n P ->
+  (1 <= p)%nat ->
+  (1 <= n)%nat ->
+  forall coeffs : list F,
+  length coeffs = (n + p)%nat ->
+  sp_wrapped F K coeffs n p ->
+  (2 <= p)%nat ->
+  sp_nu_eval_1d_scalar F K (sp_kn F K knots p) knots p coeffs 1 =
+  sp_nu_eval_1d_scalar F K (sp_kn F K knots (n + p)) knots p coeffs 1.
+Proof. exact sp_periodic_slopes. Qed.
+Print Assumptions c07_periodic_slopes.
+
 (** the laws are satisfiable: the executed instance (canonical rationals) satisfies them *)
 Theorem c07_qc_laws : sp_laws spq_ops.
 Proof. exact spq_laws. Qed.
@@ -614,4 +1016,17 @@ Example c07_ex_closed :
     = [(0%Z, 1%positive); (0%Z, 1%positive); (0%Z, 1%positive); (1%Z, 1%positive)]
   /\ SpOk (map (fun i => spq_show (sp_Nc Qc spq_ops c07_ex_knots 6 (spq_of 3 2) 3 i)) [1; 2; 3; 4]%nat)
     = spq_show_list (spq_nu_basis_funs c07_ex_knots 3 (spq_of 3 2) 4).
+Proof. vm_compute. repeat split. Qed.
+
+(** periodic non-vacuity: make_knots([0,1,3,4], degree 2, periodic) = [-3,-1,0,1,3,4,5,7], n = 3 cells,
+    period 4, wrapped coefficients [2,-5,7,2,-5]: equal values and slopes at x = 0 and x = 4 *)
+Definition c07_ex_per_knots : list Qc := map (fun z => spq_of z 1) [-3; -1; 0; 1; 3; 4; 5; 7]%Z.
+Definition c07_ex_per_coeffs : list Qc := map (fun z => spq_of z 1) [2; -5; 7; 2; -5]%Z.
+Example c07_ex_periodic :
+  spq_show_res (spq_nu_eval_1d_scalar (spq_of 0 1) c07_ex_per_knots 2 c07_ex_per_coeffs 0)
+  = spq_show_res (spq_nu_eval_1d_scalar (spq_of 4 1) c07_ex_per_knots 2 c07_ex_per_coeffs 0)
+  /\ spq_show_res (spq_nu_eval_1d_scalar (spq_of 0 1) c07_ex_per_knots 2 c07_ex_per_coeffs 1)
+  = spq_show_res (spq_nu_eval_1d_scalar (spq_of 4 1) c07_ex_per_knots 2 c07_ex_per_coeffs 1)
+  /\ spq_show_res (spq_nu_eval_1d_scalar (spq_of 0 1) c07_ex_per_knots 2 c07_ex_per_coeffs 0) = SpOk ((-3)%Z, 2%positive)
+  /\ length c07_ex_per_knots = (3 + 2 * 2 + 1)%nat.
 Proof. vm_compute. repeat split. Qed.
